@@ -31,6 +31,32 @@ def items(tier):
     return out
 
 
+def adaptive_first_step(kinds, wts, after, named, w):
+    """hand computation of one SGD step for L = weight * mean_i(a_i * e_i): theta <- theta - lr dL/dtheta, a <- a + lr dL/da"""
+    import torchphysics as tp
+    fresh = T.World()
+    xs = tp.samplers.GridSampler(fresh.dom, 4).sample_points().as_tensor
+    cw = wts[kinds.index("adaptive_w")]
+    lr = T.OPTS["sgd"]["lr"]
+    u = fresh.model2(tp.spaces.Points(xs, T.X)).as_tensor
+    e = ((u - torch.sin(3 * xs)) ** 2).sum(dim=1)
+    a = torch.ones(4, requires_grad=True)
+    L = cw * torch.mean(a * e)
+    params = list(fresh.model2.parameters())
+    grads = torch.autograd.grad(L, params + [a])
+    exp_theta = [p.detach() - lr * g for p, g in zip(params, grads[:-1])]
+    exp_a = a.detach() + lr * grads[-1]
+    real = w.conds["adaptive_w"]
+    got_a = [after[n] for n, t in named if t is real.adaptive_layer.weight]
+    if not got_a or not torch.allclose(got_a[0], exp_a, rtol=1e-5, atol=1e-7):
+        return "adaptive point weights after the first step are %s, ascent on the loss gives %s" % (got_a[0].tolist() if got_a else None, exp_a.tolist())
+    for p_real, e_t in zip(w.model2.parameters(), exp_theta):
+        got = [after[n] for n, t in named if t is p_real]
+        if got and not torch.allclose(got[0], e_t, rtol=1e-5, atol=1e-7):
+            return "network weights of the adaptive condition after the first step differ from plain descent on the weighted loss (max %.3g)" % float((got[0] - e_t).abs().max())
+    return None
+
+
 def run_item(item):
     kinds, tier = item["kinds"], item["tier"]
     N = BOUNDS[tier]["N"]
@@ -120,6 +146,13 @@ def run_item(item):
                         continue
                     if not (ss[0][name[0]] >= w0 - 1e-9).all() or not (ss[0][name[0]] > w0).any():
                         viol("C07|adaptive-weights-descend", "%s: adaptive point weights decreased in the first step: %s" % (cfg, ss[0][name[0]].tolist()))
+                        continue
+                # independent first step of the adaptive-weights condition (no condition class involved):
+                # descent on the network, ASCENT on the point weights
+                if "adaptive_w" in kinds and optname == "sgd":
+                    bad = adaptive_first_step(kinds, wts, ss[0], snamed, w)
+                    if bad:
+                        viol("C07|adaptive-first-step", "%s: %s" % (cfg, bad))
                         continue
                 res["extra"]["bit_equal_runs"] += int(allbit)
                 res["outcomes"].append(item["name"] + "|" + cfg)
